@@ -100,12 +100,6 @@ theorem replyBase_frame (s : Sess) (m : InMsg) :
   · split <;> exact ⟨rfl, rfl, rfl, rfl, rfl⟩
   · exact ⟨rfl, rfl, rfl, rfl, rfl⟩
 
-theorem curResend_congr {a b : Sess} (h1 : a.st = b.st) (h2 : a.cfg = b.cfg) : curResend a = curResend b := by
-  unfold curResend; rw [h1, h2]
-
-theorem timeGate_congr {a b : Sess} (m : InMsg) (h1 : a.st = b.st) (h2 : a.cfg = b.cfg) (h : TimeGate b m) : TimeGate a m := by
-  unfold TimeGate at h ⊢; rw [curResend_congr h1 h2, h2]; exact h
-
 /-- **acceptor, reset Logon received.**  A Logon with ResetSeqNumFlag=Y that passes the gates, is numbered 1 and is not the
     echo of a reset we asked for: the store is reset, the reply Logon is outbound number 1 and carries 141=Y, the inbound
     Logon consumed number 1: both counters are 2 afterwards, `sentReset` is down again. -/
